@@ -661,7 +661,7 @@ func RunCheck(o CheckOpts) int {
 				lines = append(lines, fmt.Sprintf("UNDECIDED property=%s obligation=%s reason=%s", o.Property, ob.Name, ob.Reason))
 				continue
 			}
-			if len(newAbs) > 0 && (ledgerObs != nil) {
+			if concreteFail := ob.Result == "failed" && ob.failing != nil && ob.failing.Goal == "false"; len(newAbs) > 0 && (ledgerObs != nil) && !concreteFail {
 				ob.Result = "undecided"
 				ob.Reason = "path crosses abstraction points not present on the pinned tree: " + strings.Join(newAbs, "; ")
 				undecided++
